@@ -429,6 +429,8 @@ V('M-sortkey-one-arm-recursive', ['C03', 'C17'], 'A9.dyn', DE, "                
 V('M-mask-eos', ['C06'], 'A3.mask', BD, "            for component in decodeFun(\n                    substrate, self.protoComponent, substrateFun=substrateFun,\n                    **options):\n                if isinstance(component, SubstrateUnderrunError):\n                    yield component\n\n            if not component:\n                raise error.PyAsn1Error('Empty BIT STRING segment')\n\n            trailingBits = oct2int(component[0])\n            if trailingBits > 7:\n                raise error.PyAsn1Error(\n                    'Trailing bits overflow", "            try:\n                for component in decodeFun(\n                        substrate, self.protoComponent, substrateFun=substrateFun,\n                        **options):\n                    if isinstance(component, SubstrateUnderrunError):\n                        yield component\n            except error.PyAsn1Error as exc:\n                raise error.PyAsn1Error('Malformed BIT STRING segment: %s' % (exc,))\n\n            if not component:\n                raise error.PyAsn1Error('Empty BIT STRING segment')\n\n            trailingBits = oct2int(component[0])\n            if trailingBits > 7:\n                raise error.PyAsn1Error(\n                    'Trailing bits overflow")
 V('M-mark-relative', ['C11'], 'A12.mark', ST, "            self._markedPosition = 0\n\n    def tell(self):\n        return self._cache.tell()", "            self._markedPosition = 0\n\n    def tell(self):\n        return self._cache.tell() + self._markedPosition")
 
+V('M-offset-divmod-signed', ['C20'], 'A11.div', US, "            seconds = offset.days * 86400 + offset.seconds\n            if seconds < 0:\n                text += '-'\n                seconds = -seconds\n            else:\n                text += '+'\n            text += '%.2d%.2d' % (seconds // 3600, seconds % 3600 // 60)", "            hours, minutes = divmod(offset.days * 1440 + offset.seconds // 60, 60)\n            text += '%s%.2d%.2d' % (hours < 0 and '-' or '+', abs(hours), minutes)")
+
 # --------------------------------------------------------------------------- runner
 
 def _copy_tree(repo, dest):
